@@ -68,6 +68,11 @@ def run_case(case):
     aw = len(bus.adr)
     (memres, _name, _rng), = list(bus.memory_map.resources())
     mem_data = memres.data
+    extra_port = None
+    if rng.random() < 0.25:
+        # a second reader of the same memory (scan-out, debug port): requested on the memory object the SRAM publishes
+        # as the resource of its memory map, before the design is built; its address wanders on its own
+        extra_port = memres.read_port(domain=rng.choice(["comb", "sync"]))
     model = list(case["init"]) + [0] * (depth - len(case["init"]))
     mon = Mon()
 
@@ -147,6 +152,9 @@ def run_case(case):
             hold = inp
             for k, v in inp.items():
                 ctx.set(getattr(bus, k), v)
+            if extra_port is not None:
+                ctx.set(extra_port.addr, rng.randrange(depth))
+                mon.count("cycles_with_a_second_read_port_on_the_published_memory")
             # ---- sample
             ack = ctx.get(bus.ack)
             dat_r = ctx.get(bus.dat_r)
